@@ -565,7 +565,8 @@ class Built:
 def build(form: str, protected: dict, plaintext: bytes, rcpts: list[Rcpt], rng, unprotected: dict | None = None,
           aad: bytes | None = None, spell_header: bool = False, cek: bytes | None = None, iv: bytes | None = None,
           content_octets: bytes | None = None, protected_text: bytes | None = None, eph_factory=None,
-          p2c: int = 1000, zlib_wrap: bool = False, wrap_cek: bytes | None = None, omit=()) -> Built:
+          p2c: int = 1000, zlib_wrap: bool = False, wrap_cek: bytes | None = None, omit=(),
+          raw_ciphertext: bytes | None = None) -> Built:
     """Encrypt as an RFC-conformant (or deliberately Byzantine) sender.
     protected must contain 'enc' (and for compact 'alg').  Algorithm parameters
     (epk, p2s/p2c, iv/tag) go to the protected header for compact, else to the
@@ -693,6 +694,11 @@ def build(form: str, protected: dict, plaintext: bytes, rcpts: list[Rcpt], rng, 
         m_octets = plaintext
     out.plaintext = plaintext
     out.ct, out.tag = enc_encrypt(enc, content_cek, out.iv, a, m_octets)
+    if raw_ciphertext is not None and kind == "cbc":
+        # Byzantine: ciphertext octets no honest encryptor produces (empty, not block aligned, bad padding) under a *valid* tag
+        half = ceklen // 2
+        out.ct = raw_ciphertext
+        out.tag = _cbc_tag(enc, content_cek[:half], a, out.iv, out.ct)
     for r in late:
         z = ecdh(r._eph, r.key) + ecdh(r.sender, r.key)
         r._ek = aes_kw_wrap(_agree(r.alg, enc, merged_for(r), z, out.tag), out.cek)
